@@ -16,11 +16,14 @@ class Deadlock(Exception):
 
 
 class Scheduler:
-    def __init__(self, files, workloads, schedule, timeout=60.0, functions=None, contexts=None):
+    def __init__(self, files, workloads, schedule, timeout=60.0, functions=None, contexts=None, raw_threads=False):
         """functions: optional {filename: set of function names}; lines of those functions are yield points
         too. contexts: optional list of contextvars.Context copies, one per worker, to run the workload in
         (threads started with context propagation: asyncio.to_thread, copy_context().run on a pool thread)"""
         self.functions = functions or {}
+        # workers started with `_thread.start_new_thread` (what C extensions and some servers do): alive, but not
+        # listed by `threading.enumerate()`
+        self.raw_threads = raw_threads
         self.contexts = contexts
         self.files = {f for f in files}
         self.workloads = workloads
@@ -109,7 +112,35 @@ class Scheduler:
             except Deadlock:
                 pass
 
+    def _run_raw(self):
+        import _thread
+        import time
+
+        fin = [threading.Event() for _ in range(self.n)]
+
+        def boot(t):
+            try:
+                self._worker(t)
+            finally:
+                fin[t].set()
+
+        for t in range(self.n):
+            _thread.start_new_thread(boot, (t,))
+        first = self._next()
+        if first is not None:
+            self.sems[first].release()
+        deadline = time.time() + self.timeout
+        for ev in fin:
+            ev.wait(max(0.0, deadline - time.time()))
+        if not all(ev.is_set() for ev in fin):
+            self.failed = self.failed or "threads still alive after the timeout"
+            for s_ in self.sems:
+                s_.release()
+        return self.results
+
     def run(self):
+        if self.raw_threads:
+            return self._run_raw()
         threads = [threading.Thread(target=self._worker, args=(t,), daemon=True) for t in range(self.n)]
         for th in threads:
             th.start()
